@@ -71,7 +71,17 @@ def run_case(c, rng):
     wn, sample, sig = make_wn(c, rng)
     c.sample = sample if 'spec' not in sample else {'spec_summary': gnet.signature(sample['spec'])}
     c.set_sig(*sig)
-    tr = simobs.run_wntr(wn, deep=False, HW_approx=rng.choice(['default', 'default', 'piecewise']))
+    # a simulator object made while the model still said DD, the demand model switched to PDD afterwards (options are read when the
+    # run starts, not when the simulator is constructed): every third pressure-dependent case
+    sim_obj = None
+    dm = wn.options.hydraulic.demand_model
+    if str(dm).upper() in ('PDD', 'PDA') and c.index % 3 == 0:
+        import wntr
+        wn.options.hydraulic.demand_model = 'DD'
+        sim_obj = wntr.sim.WNTRSimulator(wn)
+        wn.options.hydraulic.demand_model = dm
+        c.count('simulator_made_before_the_demand_model_was_set')
+    tr = simobs.run_wntr(wn, deep=False, sim=sim_obj, HW_approx=rng.choice(['default', 'default', 'piecewise']))
     if not simobs.converged(tr):
         c.inconclusive('sim_failed: %s' % (type(tr.exception).__name__ if tr.exception else 'not_converged'))
         return
